@@ -232,6 +232,10 @@ fn excluded_shape(module: &str, name: &str, args: &[&Item]) -> bool {
     if size_taking && args.iter().any(|a| huge_num(a)) {
         return true;
     }
+    // an @next that always throws never ends an adaptor that skips / takes ~2^31 items
+    if args.iter().any(|a| a.expr == "o4") && args.iter().any(|a| huge_num(a)) {
+        return true;
+    }
     // walking ~2^63 elements never finishes: the two huge ranges are not offered to the iterator
     // module / iterable-consuming functions (a 7-element range ending at i64::MAX inclusive is)
     let huge_range = |i: &Item| matches!(i.expr, "(0..=9223372036854775807)" | "((-9223372036854775807 - 1)..9223372036854775807)");
